@@ -72,7 +72,9 @@ Section LocalGen.
     induction ds_level as [|d r IH]; intros cm s evs; cbn [forl_ filter map]; [now rewrite app_nil_r|].
     unfold bind. unfold gen_NBCGeneratorWithLocalMethod_forl3 at 1. dunf. unfold just_finished at 1.
     rewrite ?(Nat.eqb_sym (mcount (ms s)) _).   (* `a == b` or `b == a` *)
-    destruct (negb (d_active (dnth d (demes (ms s)))) && _); rewrite IH; [|reflexivity]. unfold cm_add. cbn [map]. now rewrite <- app_assoc.
+    (* `not active and a == b`, or a guard `if active: continue` followed by `if a == b` *)
+    destruct (d_active (dnth d (demes (ms s)))); cbn [negb andb]; [now rewrite IH|].
+    rewrite ?(Nat.eqb_sym (mcount (ms s)) _). destruct (Nat.eqb _ _); rewrite IH; [|reflexivity]. unfold cm_add. cbn [map]. now rewrite <- app_assoc.
   Qed.
   Lemma nbc_level' c fuel : forall demes_of_level cm s evs,
     forl_ demes_of_level (gen_NBCGeneratorWithLocalMethod_forl2 nbc_cluster c fuel) cm s evs =
